@@ -118,8 +118,10 @@ class Profiles:
         'color': r'{namedcolor}|{hexcolor}|{rgbcolor}|{uicolor}',
         # 'color': r'(maroon|red|orange|yellow|olive|purple|fuchsia|white|lime|green|navy|blue|aqua|teal|black|silver|gray|ActiveBorder|ActiveCaption|AppWorkspace|Background|ButtonFace|ButtonHighlight|ButtonShadow|ButtonText|CaptionText|GrayText|Highlight|HighlightText|InactiveBorder|InactiveCaption|InactiveCaptionText|InfoBackground|InfoText|Menu|MenuText|Scrollbar|ThreeDDarkShadow|ThreeDFace|ThreeDHighlight|ThreeDLightShadow|ThreeDShadow|Window|WindowFrame|WindowText)|#[0-9a-f]{3}|#[0-9a-f]{6}|rgb\({w}{int}{w},{w}{int}{w},{w}{int}{w}\)|rgb\({w}{num}%{w},{w}{num}%{w},{w}{num}%{w}\)',
         'integer': r'[-+]?\d+',
-        'length': r'0|{number}(em|ex|px|in|cm|mm|pt|pc)',
-        'positivelength': r'0|{positivenum}(em|ex|px|in|cm|mm|pt|pc)',
+        # a zero length needs no unit, however the zero is written (0, 00, 0.0, .0, -0)
+        'zero': r'0+|0*\.0+',
+        'length': r'[-+]?{zero}|{number}(em|ex|px|in|cm|mm|pt|pc)',
+        'positivelength': r'[+]?{zero}|{positivenum}(em|ex|px|in|cm|mm|pt|pc)',
         'angle': r'0|{number}(deg|grad|rad)',
         'time': r'0|{number}m?s',
         'frequency': r'0|{number}k?Hz',
